@@ -38,8 +38,12 @@ def gen_script(ch, deep=False):
     n = 1 + ch.draw(15 if deep else 9, 'n_ops')
     sent = 0
     for _ in range(n):
-        k = ch.weighted([5, 3, 3, 2, 1, 1, 2], 'op')
-        if k == 0:
+        k = ch.weighted([5, 3, 3, 2, 1, 1, 2, 1], 'op')
+        if k == 7:
+            # looking at ws.ready / ws.closed / ws.unaccepted is an application step like any other
+            # (and must not change what the next receive returns)
+            ops.append(('props',))
+        elif k == 0:
             ops.append(('recv', ch.choice(['text', 'text', 'data', 'media'], 'rk')))
         elif k == 1:
             sk = ch.choice(['text', 'data', 'media'], 'sk')
